@@ -5,37 +5,6 @@ from vlib import *
 PID = "C17"
 
 
-def validate_trace(v, module, cfg, tracefile, splitter="New", max_rounds=6):
-    """Validate; on rejection report the run containing the rejected line, drop it, validate the rest."""
-    validated = 0
-    stats = {"states": 0, "transitions": 0}
-    for _ in range(max_rounds):
-        ok, info = tlc_trace(module, cfg, tracefile)
-        stats["states"] += info["states"]; stats["transitions"] += info["transitions"]
-        lines = open(tracefile).read().splitlines()
-        if ok:
-            validated += sum(1 for l in lines if json.loads(l).get("ev") == splitter)
-            return validated, stats
-        at = info["rejected_at"]              # 1-based index of the first unmatched line
-        start = at - 1
-        while start > 0 and json.loads(lines[start]).get("ev") != splitter:
-            start -= 1
-        end = at
-        while end < len(lines) and json.loads(lines[end]).get("ev") != splitter:
-            end += 1
-        run = [json.loads(l) for l in lines[start:end]]
-        bad = json.loads(lines[at - 1]) if at - 1 < len(lines) else None
-        op = (bad or {}).get("o", {}).get("op", "?")
-        v.add(f"trace rejected by {module}: op={op} {'panic' if (bad or {}).get('ev')=='Panic' else 'not a model step'}",
-              {"kind": "trace-run", "module": module, "cfg": cfg, "run": run, "rejected_event": bad})
-        validated += sum(1 for l in lines[:start] if json.loads(l).get("ev") == splitter)
-        rest = lines[end:]
-        if not rest:
-            return validated, stats
-        open(tracefile, "w").write("\n".join(rest) + "\n")
-    return validated, stats
-
-
 def run(tier, seed):
     t0 = time.time()
     build_harness()
